@@ -19,6 +19,8 @@
 #define PTR_EQ(p, q) __CPROVER_pointer_equals(p, q)
 #define IN_RANGE(lo, p, hi) __CPROVER_pointer_in_range_dfcc(lo, p, hi)
 
+/* pointer difference with the C++ rule for equal (possibly null) operands */
+#define VS_PTRDIFF(a, b) ((a) == (b) ? (long)0 : (long)((a) - (b)))
 #define MAXLEN  ((size_t)1 << 40)
 #define SSZ_MAX ((size_t)0x7fffffffffffffff)
 
@@ -44,14 +46,15 @@ struct vs_streambuf { char *base; size_t pos; size_t len; };
 extern bool g_hit_end;
 
 static inline char *vs_sb_eback(const struct vs_streambuf *b) { return b->base; }
-static inline char *vs_sb_gptr(const struct vs_streambuf *b)  { return b->base + b->pos; }
-static inline char *vs_sb_egptr(const struct vs_streambuf *b) { return b->base + b->len; }
+/* C++ allows nullptr + 0 (an area reset to (nullptr, nullptr, nullptr)); C does not, hence the guards */
+static inline char *vs_sb_gptr(const struct vs_streambuf *b)  { return b->pos ? b->base + b->pos : b->base; }
+static inline char *vs_sb_egptr(const struct vs_streambuf *b) { return b->len ? b->base + b->len : b->base; }
 /* setg writes a field only when its value changes, so that code restoring the same area keeps the frame assigns(pos) */
 static inline void vs_sb_setg(struct vs_streambuf *b, char *beg, char *cur, char *end)
 {
     if (b->base != beg) b->base = beg;
-    b->pos = (size_t)(cur - beg);
-    if (b->len != (size_t)(end - beg)) b->len = (size_t)(end - beg);
+    b->pos = (size_t)VS_PTRDIFF(cur, beg);
+    if (b->len != (size_t)VS_PTRDIFF(end, beg)) b->len = (size_t)VS_PTRDIFF(end, beg);
 }
 static inline long vs_sb_in_avail(const struct vs_streambuf *b) { return (long)(b->len - b->pos); }
 static inline int  vs_sb_sgetc(struct vs_streambuf *b)
